@@ -13,7 +13,7 @@ RULE = ("elevation rasters 3x3..14x14 over value classes {small ints with platea
 BUDGET = {'quick': 80, 'thorough': 500}
 FLOORS = {'quick': {'slope.formula': 150, 'aspect.formula': 150, 'curvature.formula': 150, 'hillshade.formula': 150,
                     'locality': 1500, 'offset_invariance': 200, 'quarter_turn': 150, 'border_nan': 600, 'cx!=cy': 100,
-                    'flat_window': 100, 'nan_contained': 300},
+                    'flat_window': 100, 'nan_contained': 300, 'derived_raster_uses_own_cellsize': 20},
           'thorough': {'slope.formula': 1500, 'locality': 15000, 'quarter_turn': 1500}}
 ASSUMPTIONS = ['aspect and hillshade as documented do not use the cell size; slope uses (cx, cy), curvature the mean cell size',
                'aspect is do-not-care where the gradient magnitude is within 1e3x of the float32 rounding noise of the window sums',
@@ -293,6 +293,32 @@ def check(rec, kind, idx, rng, tier):
                     rec.ok('quarter_turn')
                 else:
                     rec.violation('aspect.rotation', 'aspect of the quarter-turned raster is not the turned aspect shifted by 90 degrees', pay)
+
+    # ---- a raster derived from one that was already analysed (xarray carries attrs through isel): the cell size must be
+    #      that of the derived raster's own coordinates
+    if not use_dask and res is None and H >= 7 and W >= 7 and idx % 3 == 0:
+        r_full = gen.mk(zz, attrs={'note': 'x'}, name='dem', **geom)
+        for f in (slope, curvature):
+            rec.call(f, r_full)                                   # history: the parent raster has been analysed
+        sy, sx = int(rng.choice([2, 3])), int(rng.choice([1, 2, 3]))
+        r_sub = r_full.isel(y=slice(None, None, sy), x=slice(None, None, sx))
+        zs = np.asarray(r_sub.values).astype('float32').astype('float64')
+        cxs, cys = geom['cx'] * sx, geom['cy'] * sy
+        for fname, f, ref_f in (('slope', slope, lambda: ref_slope(zs, cxs, cys)), ('curvature', curvature, lambda: ref_curvature(zs, (cxs + cys) / 2))):
+            rec.evaluation()
+            o = rec.call(f, r_sub)
+            if hasattr(o, 'exc'):
+                rec.violation(fname + '.raises', '%s raised on a decimated raster: %r' % (fname, o), dict(base, func=fname)); continue
+            got = np.asarray(o.data, dtype='float64'); ref, tl = ref_f()
+            inner = np.zeros(got.shape, bool); inner[1:-1, 1:-1] = True
+            with np.errstate(invalid='ignore'):
+                bad = inner & ~np.isnan(ref) & ~(np.abs(got - ref) <= tl)
+            if bad.any():
+                i = tuple(int(v) for v in np.argwhere(bad)[0])
+                rec.violation(fname + '.formula_on_derived_raster', '%s on a raster decimated (%d,%d) from an already analysed one: got %r at %s, formula with the '
+                              'derived raster\'s own cell size (%r,%r) gives %r' % (fname, sy, sx, got[i], i, cxs, cys, ref[i]), dict(base, func=fname, step=(sy, sx)))
+            else:
+                rec.ok('derived_raster_uses_own_cellsize')
 
     # ---- summarize_terrain is the three calls
     if not use_dask and idx % 4 == 0 and 'slope' in outs and 'aspect' in outs and 'curvature' in outs:
